@@ -129,8 +129,8 @@ fn twin_leaf() -> BoxedStrategy<E> {
 pub fn strategy(max_depth: u32, max_size: u32) -> BoxedStrategy<Case> {
     (
         prop_oneof![
-            10 => gen::expr_over(gen::supported_leaf(), max_depth, max_size, true),
-            2 => gen::expr_over(twin_leaf(), max_depth, max_size, true),
+            10 => gen::related(gen::expr_over(gen::supported_leaf(), max_depth, max_size, true), false),
+            2 => gen::related(gen::expr_over(twin_leaf(), max_depth, max_size, true), false),
             // values only a hand-built tree can carry, and explicit precedence nodes around sub-trees
             1 => gen::expr_over(prop_oneof![3 => gen::supported_leaf(), 1 => gen::handbuilt_only_test().prop_map(E::T)].boxed(), max_depth, max_size, true),
         ],
@@ -183,6 +183,60 @@ pub fn run(ctx: &Ctx) -> Report {
             }
         }
     }
+    // every kind of leaf after every kind of other leaf (and after a formatted print with each directive)
+    let cp = crate::combo::run_pairs(
+        ctx.seed,
+        &crate::combo::context_leaves(),
+        &crate::combo::supported_kinds(),
+        ctx.tier.pick(2, 1),
+        |t| {
+            let c = Case { tree: t.clone(), files: vec![], threads: None, via_text: stable_hash(t) % 5 == 0 };
+            let (v, n) = judge_with(&c, true);
+            executions.fetch_add(n, std::sync::atomic::Ordering::Relaxed);
+            v
+        },
+        |t| case_json(&Case { tree: t.clone(), files: vec![], threads: None, via_text: stable_hash(t) % 5 == 0 }),
+    );
+    total.merge(cp);
+    // two primaries of one kind with different constants as siblings under every operator
+    let sib = crate::combo::sibling_pairs();
+    let sb = run_shards(16, |shard| {
+        let mut st = Stats::new();
+        for (i, t) in sib.iter().enumerate().filter(|(i, _)| i % 16 == shard) {
+            let c = Case { tree: t.clone(), files: vec![], threads: None, via_text: i % 3 == 0 };
+            let (v, n) = judge_with(&c, true);
+            executions.fetch_add(n, std::sync::atomic::Ordering::Relaxed);
+            st.record(&v, stable_hash(t), true, || case_json(&c));
+        }
+        st.samples.truncate(1);
+        st
+    });
+    total.merge(sb);
+    // ages and sizes whose count is a multiple of a larger unit (60 s, 24 h, 1440 min, 1024 k): a
+    // conversion to the larger unit rounds differently
+    let mut stu = Stats::new();
+    for w in [Which::A, Which::C, Which::M] {
+        for c in [Cmp::Gt, Cmp::Lt, Cmp::Eq] {
+            for (n, u) in [(60u64, TUnit::S), (120, TUnit::S), (3600, TUnit::S), (86400, TUnit::S), (60, TUnit::M), (120, TUnit::M), (1440, TUnit::M), (2880, TUnit::M), (10080, TUnit::M), (24, TUnit::H), (48, TUnit::H), (168, TUnit::H), (7, TUnit::D), (1, TUnit::D), (1, TUnit::H), (1, TUnit::M)] {
+                let t = E::T(Tst::Time(w, c, n, u));
+                let cs = Case { tree: t, files: vec![], threads: None, via_text: false };
+                let (v, k) = judge_with(&cs, true);
+                executions.fetch_add(k, std::sync::atomic::Ordering::Relaxed);
+                stu.record(&v, stable_hash(&cs), true, || case_json(&cs));
+            }
+        }
+    }
+    for c in [Cmp::Gt, Cmp::Lt, Cmp::Eq] {
+        for (n, u) in [(1024u64, SUnit::C), (2048, SUnit::C), (512, SUnit::C), (2, SUnit::B), (2, SUnit::W), (1024, SUnit::K), (2048, SUnit::K), (1024, SUnit::M), (1024, SUnit::G), (2048, SUnit::B), (1048576, SUnit::C)] {
+            let t = E::T(Tst::Size(c, n, u));
+            let cs = Case { tree: t, files: vec![], threads: None, via_text: false };
+            let (v, k) = judge_with(&cs, true);
+            executions.fetch_add(k, std::sync::atomic::Ordering::Relaxed);
+            stu.record(&v, stable_hash(&cs), true, || case_json(&cs));
+        }
+    }
+    stu.samples.truncate(1);
+    total.merge(stu);
     // requests that a registry keyed by a concatenation of their parts would take for one
     let twins = crate::combo::concat_twin_trees();
     let tw = run_shards(16, |shard| {
